@@ -25,6 +25,7 @@ def prop_types(full):
         ("ref-struct", R("Position")), ("ref-closed-str-enum", R("MarkupKind")), ("ref-open-str-enum", R("LanguageKind")),
         ("array-struct", ARR(R("Range"))), ("map-str-base", {"kind": "map", "key": B("string"), "value": B("integer")}),
         ("tuple", {"kind": "tuple", "items": [B("uinteger"), B("string")]}), ("struct-or-null", OR(R("Position"), B("null"))),
+        ("null-or-string", OR(B("null"), B("string"))),
         ("literal", {"kind": "literal", "value": {"properties": [
             {"name": "first", "type": B("string")}, {"name": "secondValue", "type": OR(B("uinteger"), B("null"))},
             {"name": "third", "type": B("boolean"), "optional": True}]}}),
@@ -86,7 +87,7 @@ def e2_new_property(doc, full, owners=None):
     if full:
         owners = owners + [("special-open", "InitializedParams")]
     types = prop_types(full)
-    names = ["verifProp", "verifLongerName", "class", "global"]
+    names = ["verifProp", "verifLongerName", "class", "global", "verif2Data"]
     combos = []
     if full:
         for ol, o in owners:
@@ -110,7 +111,7 @@ def e2_new_property(doc, full, owners=None):
             p["optional"] = True
         _struct(d, o)["properties"].append(p)
         out.append(("new %s property %s: %s on %s structure %s" % ("optional" if opt else "required", nm, tl, ol, o),
-                    "E2:%s:%s:%s:%s" % (ol, tl, "kw" if nm in ("class", "global") else "plain", "opt" if opt else "req"), d))
+                    "E2:%s:%s:%s:%s" % (ol, tl, "kw" if nm in ("class", "global") else "digit" if nm == "verif2Data" else "plain", "opt" if opt else "req"), d))
     return out
 
 
@@ -124,6 +125,10 @@ def e3_inheritance(doc, full):
     d["structures"].append({"name": "VerifMixed", "properties": [{"name": "verifOwn", "type": B("string")}], "mixins": [R(MIXIN)],
                             "extends": [R("Position")]})
     out.append(("new structure extending Position with mixin %s" % MIXIN, "E3:mixin", d))
+    d = copy.deepcopy(doc)
+    d["structures"].append({"name": "VerifDeepMixed", "properties": [{"name": "verifOwn", "type": B("string"), "optional": True}],
+                            "mixins": [R("HoverParams")]})
+    out.append(("new structure mixing in HoverParams (a mixin that itself extends and mixes in other structures)", "E3:mixin-with-parents", d))
     d = copy.deepcopy(doc)
     d["structures"].append({"name": "VerifKindMixin", "properties": [{"name": "kind", "type": B("string")}, {"name": "label", "type": B("string"), "optional": True}]})
     d["structures"].append({"name": "VerifArchiveParams", "properties": [{"name": "kind", "type": {"kind": "stringLiteral", "value": "archive"}},
